@@ -28,6 +28,7 @@ import (
 	"strings"
 
 	kerrors "k8s.io/apimachinery/pkg/api/errors"
+	kmeta "k8s.io/apimachinery/pkg/api/meta"
 	metav1 "k8s.io/apimachinery/pkg/apis/meta/v1"
 	"k8s.io/apimachinery/pkg/apis/meta/v1/unstructured"
 	"k8s.io/apimachinery/pkg/runtime"
@@ -49,7 +50,7 @@ type c19Call struct {
 }
 
 // error classes an injected failure may carry; what the model distinguishes is c19Canon(class)
-var c19ErrClasses = []string{"forbidden", "timeout", "unavailable", "transport", "deadline", "invalid", "alreadyExists", "notFound"}
+var c19ErrClasses = []string{"forbidden", "timeout", "unavailable", "transport", "deadline", "invalid", "alreadyExists", "notFound", "noKindMatch", "noResourceMatch", "tooManyRequests"}
 
 type c19TransportErr struct{}
 
@@ -76,6 +77,13 @@ func c19ErrOf(class, gk, name string) error {
 		return kerrors.NewTimeoutError("request did not complete within the allotted time", 1)
 	case "unavailable":
 		return kerrors.NewServiceUnavailable("the server is currently unable to handle the request")
+	case "noKindMatch":
+		// a (lazy) RESTMapper / discovery that does not know the kind yet
+		return &kmeta.NoKindMatchError{GroupKind: schema.GroupKind{Group: v1beta1.Group, Kind: gk}, SearchedVersions: []string{"v1beta1"}}
+	case "noResourceMatch":
+		return &kmeta.NoResourceMatchError{PartialResource: schema.GroupVersionResource{Group: v1beta1.Group, Resource: strings.ToLower(gk) + "s"}}
+	case "tooManyRequests":
+		return kerrors.NewTooManyRequests("the server has received too many requests", 1)
 	case "transport":
 		return c19TransportErr{}
 	case "deadline":
